@@ -81,8 +81,14 @@ func (k *simSock) Send(observer func(time.Duration), command ...string) ([]strin
 			return nil, fmt.Errorf("simulated admin socket error")
 		}
 		if bad, ok := s.Faults.AdminBad[n]; ok {
-			for range command {
-				out = append(out, bad)
+			for _, cmd := range command {
+				if bad == "REFUSE" {
+					// what HAProxy itself answers when it refuses this command (the refusals of the `ssl cert`
+					// commands echo the certificate file name)
+					out = append(out, refusalOf(cmd))
+				} else {
+					out = append(out, bad)
+				}
 			}
 			s.Cmds = append(s.Cmds, command...)
 			return out, nil
@@ -132,6 +138,20 @@ func (s *Sim) masterCmd(cmd string) string {
 			"# old workers\n# programs\n", s.ReloadTr, s.Failed)
 	}
 	return ""
+}
+
+// refusalOf: HAProxy's own wording of a refused runtime command
+func refusalOf(cmd string) string {
+	f := strings.Fields(cmd)
+	switch {
+	case len(f) >= 4 && f[0] == "set" && f[1] == "ssl" && f[2] == "cert":
+		return "Can't replace a certificate which is not referenced by the configuration!\nCan't update " + f[3] + "!\n"
+	case len(f) >= 4 && f[0] == "commit" && f[1] == "ssl" && f[2] == "cert":
+		return "No ongoing transaction! !\nCan't commit " + f[3] + "!\n"
+	case len(f) >= 3 && f[0] == "set" && f[1] == "server":
+		return "No such server."
+	}
+	return "Unknown command."
 }
 
 // load parses the files on disk the way `haproxy -f <dir>` reads them
